@@ -55,3 +55,14 @@ CHECKS["C17"] = dict(
     assumptions=[],
     harnesses=[dict(pkg="server", name="C17_step", bound=_STEP_BOUND, flags=["-witness", "500"], reach=["end", "key-gone", "lcount-checked"])],
 )
+
+CHECKS["C13"] = dict(
+    explanation="bounded symbolic execution with every implicit Go run-time check (index, slice bounds, nil dereference, makeslice, division) turned into a fork; any feasible panic is replayed natively",
+    assumptions=["frames are delivered whole (Stream.ReadBytesFrame contract: 4 length bytes equal to the number of following bytes)"],
+    harnesses=[
+        dict(pkg="server", name="C13_frame", bound="value frames of 0..8 bytes, arbitrary content", flags=["-witness", "10"], reach=["end"]),
+        dict(pkg="server", name="C13_lockdata", bound="key value = none or any stored frame of 2..4 bytes; operation frame of 2..6 bytes with each of the 8 non-POP operation types or an arbitrary type byte; carried on LOCK or on UNLOCK of the holder", flags=["-witness", "2000"], reach=["end", "first-frame-done"], allow=["unsupported"]),
+        dict(pkg="server", name="C13_lockdata_pop", bound="as C13_lockdata with the POP operation", flags=["-witness", "200"], reach=["end", "first-frame-done"], allow=["unsupported"]),
+        dict(pkg="server", name="C13_lockdata8", bound="as C13_lockdata with frames of 2..8 bytes", flags=["-witness", "20000"], reach=["end"], allow=["unsupported"], thorough_only=True),
+    ],
+)
